@@ -35,6 +35,23 @@ C = {
       text="For every prefix of the device write log after the first flush point of generated histories, the crash image is mounted afresh; TLC requires every file flushed (up to the last flush the storage has seen) and not modified since to be found with exactly the flushed content.",
       tech="crash-point enumeration over device write-log prefixes, judged by TLC (TraceFatFs crash events)",
       note="Trusted: SimDevice write log; power cut modelled as loss of a suffix of the write sequence on a cache that honours flush (no reordering, no torn writes)."),
+ "C06": dict(cat="model_checking", ref="7 C06", engine="tlc-format",
+      text="Every outcome of a grid of format requests (all thresholds of the sizing heuristics and FAT-type limits +-{0,1,2} sectors and +- one cluster, option grid, exact cluster-count limits, very large tables, random grid) is judged by TLC: Format!ValidFormatted evaluated in exact limb arithmetic on the independently decoded image, InvalidInput on rejection, never a panic, defaults always succeed from 42 sectors.",
+      tech="TLA+ Geometry/Format (exact Nat64 limb arithmetic) + TLC on recorded format outcomes",
+      note="Trusted: independent BPB parse and decoder in the harness. The 2^32 default-options sweep through the boot-sector hook is the thorough tier."),
+ "C07": dict(cat="model_checking", ref="7 C07", engine="tlc-mount",
+      text="Mount attempts on FAT12/16/32 images with mutated boot-sector/FSInfo fields (8-bit fields exhaustively, 16-bit strided or exhaustive, 32-bit at 2^k, 2^k+-1, thresholds, random, 2-4 field combinations, truncated devices, strict and non-strict); TLC evaluates Geometry!Coherent in exact arithmetic on every accepted volume and compares the derived width, cluster size and cluster count.",
+      tech="TLA+ Geometry!Coherent (exact limb arithmetic) + TLC on recorded mount outcomes",
+      note="Trusted: independent BPB parse in the harness. Absence of panics holds for the enumerated inputs only (totality over all byte strings is not provable with this family)."),
+ "C15": dict(cat="model_checking", ref="7 C15",
+      text="Name campaigns (every ASCII character, BMP code points, astral samples in first/middle/last position, lengths 0..300 with 1-4 byte characters, every character whose upper-case expansion differs with folded partners and near misses, alias lookups, renames to invalid names): TLC judges acceptance (Names!NameErrors), error kind, absence of side effects, the stored name and every lookup (fold keys).",
+      tech="TLA+ Names (validity, fold keys from the Rust std table) + TreeModel, TLC trace validation"),
+ "C16": dict(cat="model_checking", ref="7 C16",
+      text="Directories populated with names colliding on both alias forms (incl. names searched for equal 16-bit checksum), alias look-alikes, non-ASCII and dotted names, removals in between: for every created entry TLC checks Names!LegalShortName, uniqueness within the directory and the checksum link of every long-name slot; creation must return within the device-call budget.",
+      tech="TLA+ Names!LegalShortName / DirSlots!Class evaluated by TLC on the raw directory projection after every creation"),
+ "C18": dict(cat="model_checking", ref="7 C18",
+      text="Explicit stamps over the field ranges (thorough: every (y,m,d)) set, flushed/closed and read back through a fresh mount and from the raw entry, plus random histories under a deterministic clock with access-date updating on and off: TLC applies Stamps!Trunc10ms/Trunc2s/DateOf and the stamping rules (create once, write, read, rename keeps, other entries untouched).",
+      tech="TLA+ Stamps + TreeModel stamping rules, TLC trace validation"),
 }
 checks = []
 for p in props:
@@ -58,8 +75,10 @@ m = {
  "setup_cmd": "./check setup",
  "hooks": {"guard": "fatfs_verif", "enable": "rustflags --cfg fatfs_verif in /verif/harness/.cargo/config.toml (the harness is a separate crate with a path dependency on /repo)",
            "baseline_off_cmd": "python3 /verif/tools/baseline.py", "source_commits": hook_commits, "add_only": True},
- "engines": [{"name": "tlc-fault", "path": "/verif/spec/TraceFault.tla", "serves_properties": ["C09"], "kind_free_text": "TLA+ TraceFault + TLC on fault-enumeration traces produced by `fxh faults`"},
-             {"name": "tlc-trace", "path": "/verif/spec", "serves_properties": sorted(C), "kind_free_text": "TLA+ specification (Names, Fat, DirSlots, TreeModel, FatFsA, Stamps) + TLC; TraceFatFs validates NDJSON traces recorded from the real library by /verif/harness"}],
+ "engines": [{"name": "tlc-format", "path": "/verif/spec/TraceFormat.tla", "serves_properties": ["C06"], "kind_free_text": "TLA+ Nat64/Geometry/Format + TLC on outcomes of `fxh formats`"},
+             {"name": "tlc-mount", "path": "/verif/spec/TraceMount.tla", "serves_properties": ["C07"], "kind_free_text": "TLA+ Nat64/Geometry + TLC on outcomes of `fxh mounts`"},
+             {"name": "tlc-fault", "path": "/verif/spec/TraceFault.tla", "serves_properties": ["C09"], "kind_free_text": "TLA+ TraceFault + TLC on fault-enumeration traces produced by `fxh faults`"},
+             {"name": "tlc-trace", "path": "/verif/spec", "serves_properties": sorted(k for k in C if C[k].get("engine", "tlc-trace") == "tlc-trace"), "kind_free_text": "TLA+ specification (Names, Fat, DirSlots, TreeModel, FatFsA, Stamps) + TLC; TraceFatFs validates NDJSON traces recorded from the real library by /verif/harness"}],
  "checks": checks,
  "not_applicable": [{"property_id": p, "reason": "check not built yet (build in progress, DESIGN.md section 9)"} for p in props if p not in C],
  "notes": "Every verdict is produced by TLC evaluating the TLA+ specification on traces recorded from the real code; see DESIGN.md.",
